@@ -282,6 +282,9 @@ def run(ctx, out):
     # unwinding of run_io under every failure position (real linux_io.c against Cjet.Startup and its goto ladders)
     from vlib import startup_tie
     startup_tie.run_startup_tie(ctx, out)
+    # cJSON_Duplicate under every allocation-failure index of every item (real cJSON.c against Cjet.Cjson.TreeOps)
+    from vlib import cjsontree_tie
+    cjsontree_tie.run_cjsontree_tie(ctx, out)
     out.assumptions += ["one C allocation does not map one-to-one to a model failure point (cJSON nodes): the enumeration judges the real code by crash/leak/hygiene/"
                         "liveness/at-most-one-response, the ladder theorems carry the unwinding logic",
                         "reduced-heap-cap runs are covered by the alloc component tie (C07)"]
